@@ -33,10 +33,8 @@ def r_C25efg(root):
             for ns, imp, want in SAMPLES:
                 env = {"import_name": imp, cur: ns}
                 if not pyeval.evaluate(blk.test, env): raise AnalysisError("_new_import: dotted namespace %r does not take the qualification branch" % ns)
-                for st in blk.body:
-                    if isinstance(st, ast.Assign) and len(st.targets) == 1 and isinstance(st.targets[0], ast.Name): env[st.targets[0].id] = pyeval.evaluate(st.value, env)
-                    elif isinstance(st, ast.Expr) and isinstance(st.value, ast.Constant): continue
-                    else: raise AnalysisError("_new_import: unsupported statement in the qualification branch: " + ast.unparse(st)[:60])
+                try: pyeval.run_block(blk.body, env)
+                except pyeval.Raised as r_: raise AnalysisError("_new_import: the qualification branch raises %s" % r_.cls)
                 got = env["import_name"]
                 if got != want: okc = False; break
         except pyeval.Unsupported as e: raise AnalysisError("_new_import: %s" % e)
